@@ -139,3 +139,44 @@ def _string_read_values(vc):
         vc.ensure("string[%d]-bytes" % i, And(s.src.off == start + prev, s.src.length == offs[i] - prev))
         prev = offs[i]
     vc.ensure("cursor-after-strings", f.pos == start + prev)
+
+
+# ---------------------------------------------------------------------------- one segment object, two byte orders
+
+CROSS_VARIANTS = [("%s,index%s,values%s" % (L.TYPES[c][0], a, b), (c, a, b))
+                  for c in (2, 3, 10, 0x08000C) for a in "<>" for b in "<>" if a != b]
+
+
+@harness("read_values_after_index_of_other_byte_order",
+         ["tdms_segment.TdmsSegmentObject.__init__", "tdms_segment.TdmsSegmentObject.read_raw_data_index",
+          "tdms_segment.TdmsSegmentObject.read_values"], ["C15", "C01"], variants=CROSS_VARIANTS, setup=_setup,
+         note="a segment object is shared by later segments ('same as before', carried-over list, metadata-less "
+              "segment) whose ToC byte order may differ from the segment its index was parsed in: built by the real "
+              "__init__, index parsed in one byte order, values read in the other, the values follow the byte order "
+              "of the read")
+def _read_values_cross(vc):
+    code, idx_order, val_order = vc.variant
+    name, width, npname = L.TYPES[code]
+    it = vc.interp
+    fi = SFile("idx")
+    pi = vc.int("idxpos", lo=0)
+    fi.pos = pi
+    vc.assume(fi.size - pi >= 24)
+    big = idx_order == ">"
+    b = SBytes(fi.content, pi, 24)
+    vc.assume(And(uint(b, 0, 4, big) == code, uint(b, 4, 4, big) == 1))
+    obj = it.instantiate(it.get("tdms_segment.TdmsSegmentObject"), ["/'g'/'c'"], {})
+    out = vc.call_method(obj, "read_raw_data_index", fi, 20, idx_order)
+    vc.ensure("index/no-exception", out.kind == "ret")
+    if out.kind != "ret":
+        return
+    f, pos0 = mk_file(vc)
+    n = vc.int("n", lo=0)
+    out = vc.call_method(obj, "read_values", f, n, val_order)
+    vc.ensure("values/no-exception", out.kind == "ret")
+    if out.kind != "ret":
+        return
+    a = as_filearr(out.value)
+    vc.ensure("values-are-decoded-in-the-byte-order-of-the-segment-being-read",
+              a.dtype_ == expected_dtype(code, val_order))
+    vc.ensure("values-start-at-cursor", Or(a.count == 0, And(a.base == pos0, a.content is f.content)))
